@@ -186,12 +186,27 @@ def order_body(t, n_traces=3, g=G_ORD, honour_known=True, with_dup=True, rets=RE
 
 
 DIAMOND = (K.X1, K.Y1, K.X2, K.Y2, K.X3, K.Y3)
+from typing import Dict as _D, List as _L, Tuple as _T  # noqa: E402
+
+FAMILIES = {
+    # six classes over a diamond X*(P, Q) / Y*(Q, P): RewriteLargeUnion's common-ancestor choice
+    "diamond": DIAMOND,
+    # six homogeneous tuple shapes over two element types: RewriteLargeUnion's Tuple[V, ...] shortcut
+    "tuples": (_T[int], _T[int, int], _T[int, int, int], _T[str], _T[str, str], _T[str, str, str]),
+    # one element type only: the shortcut must fire, in every order
+    "tuples_same": (_T[int], _T[int, int], _T[int, int, int], _T[int, int, int, int], _T[int, int, int, int, int], _T[int, int, int, int, int, int]),
+    # dict unions (RewriteConfigDict) mixed with empty containers (RemoveEmptyContainers)
+    "dicts": (_D[str, int], _D[str, str], _D[str, K.A], _D[MT.Any, MT.Any], _D[str, _L[int]], _D[str, type(None)]),
+    # plain classes with a common base plus unrelated ones
+    "classes": (K.A, K.B, K.C, K.D, K.E, int, type(None)),
+}
 
 
-def diamond_body(t, depth=2):
-    """Six classes over a diamond (X*(P, Q), Y*(Q, P)), one trace each: the default rewriter's
-    RewriteLargeUnion must not make the stub depend on which member happens to come first."""
-    traces = [CallTrace(F.mod_func, {"a": c}, None) for c in DIAMOND]
+def diamond_body(t, depth=2, family=None):
+    """More members than RewriteLargeUnion's limit, one trace each: the default rewriter must not make
+    the stub depend on which member happens to come first (row order, set iteration order)."""
+    fam = family if family is not None else tuple(FAMILIES)[t.take(len(FAMILIES))]
+    traces = [CallTrace(F.mod_func, {"a": c}, None) for c in FAMILIES[fam]]
     base = render(traces, 0, MT.DEFAULT_REWRITER, None)
     rot = t.take(len(traces))
     perm = traces[rot:] + traces[:rot]
@@ -202,13 +217,43 @@ def diamond_body(t, depth=2):
     return check(r is None, lambda: f"{r}\n--- rows in order ---\n{base[M]}\n--- permuted rows / other set order ---\n{other[M]}")
 
 
+def store_body(t, n_calls=3):
+    """Through the real SQLite store: the same calls logged in another order, with one of them
+    duplicated, split into batches differently -- the stub must be the same."""
+    import harness.pipeline as P
+
+    kind = ("generator", "function")[t.take(2)]
+    k, rw = ((0, "NoOpRewriter"), (3, "DEFAULT_REWRITER"))[t.take(2)] if n_calls < 3 else ((0, 3)[t.take(2)], ("NoOpRewriter", "DEFAULT_REWRITER")[t.take(2)])
+    args = ((1,), ({"a": 1},), ("s",))[: n_calls]
+    ress = (1, "s", None)
+    calls = []
+    for _ in range(n_calls):
+        calls.append((args[t.take(len(args))][0], ress[t.take(len(ress))]))
+    _rows, base, _err = P.run_pipeline(kind, calls, k, rw, "default")
+    rest = list(calls)
+    perm = []
+    while rest:
+        perm.append(rest.pop(t.take(len(rest)) if len(rest) > 1 else 0))
+    dup = t.take(n_calls + 1)
+    if dup < n_calls:
+        perm.append(calls[dup])
+    flush_after = (t.take(len(perm)),)
+    _rows2, other, _err2 = P.run_pipeline(kind, perm, k, rw, "default", flush_after)
+    if (base is None) != (other is None):
+        return check(False, "a stub in one order, none in the other")
+    r = same_stub(base, other, M)
+    return check(r is None, lambda: f"{kind} k={k} {rw}: calls {calls} vs {perm} (flush after {flush_after}): {r}\n--- first ---\n{base}\n--- second ---\n{other}")
+
+
+tape_harness("store_order", [("t", 16)], {}, store_body, globals())
+tape_harness("store_order2", [("t", 12)], {}, lambda t: store_body(t, 2), globals())
 tape_harness("order3", [("t", 48)], {}, lambda t: order_body(t, 3, G_ORD3), globals())
 tape_harness("order2q", [("t", 30)], {}, lambda t: order_body(t, 2, G_ORD, True, False, RETS[:2]), globals())
 tape_harness("order2", [("t", 30)], {}, lambda t: order_body(t, 2, G_ORD2), globals())
-tape_harness("diamond1", [("t", 16)], {}, lambda t: diamond_body(t, 1), globals())
-tape_harness("diamond", [("t", 16)], {}, diamond_body, globals())
+tape_harness("diamond1", [("t", 18)], {}, lambda t: diamond_body(t, 1), globals())
+tape_harness("diamond", [("t", 18)], {}, diamond_body, globals())
 _B = {"order3": lambda t: order_body(t, 3, G_ORD3), "order2": lambda t: order_body(t, 2, G_ORD2), "order2q": lambda t: order_body(t, 2, G_ORD, True, False, RETS[:2]),
-      "diamond": diamond_body, "diamond1": lambda t: diamond_body(t, 1)}
+      "diamond": diamond_body, "diamond1": lambda t: diamond_body(t, 1), "store_order": store_body, "store_order2": lambda t: store_body(t, 2)}
 
 
 def shards(name, prefix=5):
